@@ -57,6 +57,51 @@ PATH_ROUTES = ["lib", "lib-path", "lib-rel", "cli", "cli-rel", "cli-m", "ns",
                "ns-path"]
 
 
+# calling styles: the ways a host program (or the command line) can hand the
+# metafile and the version request to the code.  The documented signature is
+# magnet(metafile, version=0) with an int; get_magnet() takes the Namespace the
+# parser builds (meta_version is a digit string there, a hand-built one may
+# carry an int); `default` exists for the automatic request only.
+STYLES = ["default", "kw", "pos", "pkg-pos", "pkg-kw", "all-kw", "kw-swapped",
+          "star-args", "ns-str", "ns-int", "cli", "cli-flag-first", "cli-eq"]
+
+
+def call_style(style, path, vr):
+    """One magnet request in one calling style -> URI."""
+    from argparse import Namespace
+    pkg = tf.torrentfile
+    if style.startswith("cli"):
+        flag = ["--meta-version=" + str(vr)] if style == "cli-eq" else \
+            ["--meta-version", str(vr)]
+        argv = ["magnet"] + flag + [path] if style == "cli-flag-first" else \
+            ["magnet", path] + flag
+        return tf.execute(argv)
+    with tf.quiet():
+        if style == "default":
+            return tf.commands.magnet(path)
+        if style == "kw":
+            return tf.commands.magnet(path, version=vr)
+        if style == "pos":
+            return tf.commands.magnet(path, vr)
+        if style == "pkg-pos":
+            return pkg.magnet(path, vr)
+        if style == "pkg-kw":
+            return pkg.magnet(path, version=vr)
+        if style == "all-kw":
+            return pkg.magnet(metafile=path, version=vr)
+        if style == "kw-swapped":
+            return pkg.magnet(version=vr, metafile=path)
+        if style == "star-args":
+            return tf.commands.magnet(*(path, vr))
+        if style == "ns-str":
+            return tf.commands.get_magnet(
+                Namespace(metafile=path, meta_version=str(vr)))
+        if style == "ns-int":
+            return tf.commands.get_magnet(
+                Namespace(metafile=path, meta_version=vr))
+    raise core.InfraError("unknown calling style " + style)
+
+
 def strings(tier):
     toks = TOKENS[:12] if tier == "quick" else TOKENS
     out = []
@@ -202,6 +247,19 @@ class MagnetCheck:
             "sub-command spellings) and the Namespace handler",
             "tr = flattened announce-list when present, else announce; a "
             "string url-list is one URL",
+            "calling styles (group `styles`): reference-encoded and own "
+            "metafiles of every version x every version request the metafile "
+            "can satisfy (0 and its own version for v1-only / v2-only; 0, 1, "
+            "2, 3 for hybrids) x the ways of handing the request over: "
+            "commands.magnet and the package attribute torrentfile.magnet "
+            "with the version by keyword, positionally (second argument), "
+            "all-keyword in both orders, through *args, omitted (automatic "
+            "only); get_magnet(Namespace) with meta_version as digit string "
+            "and as int; the command line with the flag after / before the "
+            "path and in the --flag=value spelling; the version is an int "
+            "wherever the documented signature magnet(metafile, version=0) "
+            "takes one (a digit string handed directly to magnet() is outside "
+            "the signature and is not driven)",
         ]
         self.rule = (
             "full product version x single/dir x announce form x url-list form "
@@ -209,7 +267,10 @@ class MagnetCheck:
             "and web-seed keys) x string x version request x route (library | CLI "
             "for a sub-product); state = one distinct metafile; transition = "
             "one magnet() call of the real code; URI parsed with urllib and "
-            "compared with the reference model computed from the raw bytes")
+            "compared with the reference model computed from the raw bytes; "
+            "plus the calling-style product (metafile x satisfiable version "
+            "request x keyword | positional | Namespace | command-line style) "
+            "judged by the same oracle")
 
     def groups(self, tier, seed):
         gs = []
@@ -220,6 +281,7 @@ class MagnetCheck:
                                "url": url, "seed": seed, "tier": tier})
         gs.append({"kind": "own", "seed": seed, "tier": tier})
         gs.append({"kind": "paths", "seed": seed, "tier": tier})
+        gs.append({"kind": "styles", "seed": seed, "tier": tier})
         return gs
 
     def run_case(self, raw, version_req, route, work):
@@ -247,6 +309,8 @@ class MagnetCheck:
             return self.run_own(g, res, work)
         if g["kind"] == "paths":
             return self.run_paths(g, res, work)
+        if g["kind"] == "styles":
+            return self.run_styles(g, res, work)
         version = g["version"]
         reqs = [0] if version != 3 else [0, 1, 2, 3]
         shadows = ["shadow"] if g["tier"] == "quick" else list(SHADOWS)
@@ -359,6 +423,69 @@ class MagnetCheck:
                         res.states += 1
         return res
 
+    def style_metafiles(self, seed):
+        """(label, version, raw bytes) of the metafiles of the style group:
+        reference-encoded ones and ones created by the code itself."""
+        out = []
+        for version in (1, 2, 3):
+            for single in (False, True):
+                for ann, url in (("list2", "list2"), ("none", "absent")):
+                    out.append((f"ref-v{version}-{'single' if single else 'dir'}"
+                                f"-{ann}-{url}", version,
+                                build(version, "st & yle", "s=", ann, url,
+                                      "plain", seed, single)))
+        files = [(("a",), world.content(seed, 0, 2 * P0 + 1)),
+                 (("d", "b"), world.content(seed, 1, 5))]
+        for creator, version in (("TorrentFile", 1), ("Assembler2", 2),
+                                 ("Assembler3", 3), ("TorrentFileHybrid", 3)):
+            parent = world.fresh_dir()
+            root = world.materialize(files, parent, name="own name")
+            tf.reset_process_state()
+            raw = tf.create(creator, root, os.path.join(parent, "o.torrent"),
+                            P0, announce=["http://t0/a?x=1&y=2", "udp://t1"],
+                            url_list=["http://w0/ +"])
+            out.append(("own-" + creator, version, raw))
+        return out
+
+    def run_styles(self, g, res, work, only=None):
+        """Every calling style x every version request the metafile can
+        satisfy: the URI depends on the request, not on how it was handed
+        over (keyword / positional / Namespace / command line)."""
+        seed = g["seed"]
+        for label, version, raw in self.style_metafiles(seed):
+            reqs = {1: [0, 1], 2: [0, 2], 3: [0, 1, 2, 3]}[version]
+            path = os.path.join(world.fresh_dir(), "m.torrent")
+            with open(path, "wb") as f:
+                f.write(raw)
+            res.states += 1
+            for vr in reqs:
+                for style in STYLES:
+                    if style == "default" and vr != 0:
+                        continue
+                    case = {"kind": "styles", "label": label, "req": vr,
+                            "style": style, "seed": seed}
+                    if only is not None and only != case:
+                        continue
+                    try:
+                        uri = call_style(style, path, vr)
+                        probs = judge(uri, raw, vr)
+                    except core.InfraError:
+                        raise
+                    except BaseException as e:  # noqa (argparse exits)
+                        probs = [("magnet-raised:" + type(e).__name__,
+                                  str(e)[:100])]
+                    res.transitions += 1
+                    res.evals += 1
+                    res.validated += 1
+                    res.outcomes["style:" + ("ok" if not probs else
+                                             probs[0][0])] += 1
+                    for p, d in probs:
+                        res.violation(
+                            f"C11|style:{style}|{p}|v{version}|req={vr}",
+                            case, d)
+        res.sample({"kind": "styles", "styles": STYLES})
+        return res
+
     def run_own(self, g, res, work):
         """Metafiles created and edited by torrentfile itself."""
         seed = g["seed"]
@@ -443,6 +570,11 @@ class MagnetCheck:
             self.run_paths({"seed": case["seed"]}, res, work, only=only)
             return [{"sig": v["sig"], "detail": v["detail"]}
                     for v in res.violations if v["case"]["req"] == case["req"]]
+        if case["kind"] == "styles":
+            res = core.Result()
+            self.run_styles({"seed": case["seed"]}, res, work, only=dict(case))
+            return [{"sig": v["sig"], "detail": v["detail"]}
+                    for v in res.violations]
         if case["kind"] == "ref":
             raw = build(case["version"], case["s"], case["s"], case["ann"],
                         case["url"], "plain" if case["extra"] == "small"
